@@ -13,10 +13,12 @@ Run(kk) == LET e == KAT[kk]
                b == CrcBitwise(e.poly, e.m, e.init, e.final)
                t == CrcTabled(e.poly, e.m, e.init, e.final)
                z == IF e.kind = "crc32" THEN Crc32(e.m) ELSE e.crc
-               back == CrcRegBack(e.poly, T, e.m, CrcXor(e.crc, e.final))
+               back == CrcRegBack(e.poly, e.m, CrcXor(e.crc, e.final))
+               m40 == SubSeq(e.m, 1, IF Len(e.m) < 40 THEN Len(e.m) ELSE 40)      \* the table search is slow: a prefix
+               backT == CrcRegBackTabled(e.poly, T, m40, CrcRegTabled(T, m40, e.init))
                ok == /\ b = e.crc /\ t = e.crc /\ z = e.crc
                      /\ CrcWidth(e.poly) = e.w
-                     /\ back = e.init
+                     /\ back = e.init /\ backT = e.init
                v == IF ok THEN "ok" ELSE "bad"
            IN IF PrintT(ToJson([k |-> kk, verdict |-> v, got |-> b, tabled |-> t, back |-> back])) THEN v ELSE v
 Init == k \in 1..Len(KAT) /\ verdict = "pending"
